@@ -89,7 +89,7 @@ prop("C09", "A source transaction reaches the target as one atomic transaction",
 
 prop("C07", "The stored resume position only moves forward along command boundaries", "exploration",
      "a case = resume-enabled configuration (both checkpoint modes, blocking/pipelined) x stream x schedule with idle gaps (before the first item, between items, 6% longer than the keep-alive ticker) x a chain of 1-3 faults (target crash / graceful stop at a drawn request index) "
-     "x optional pure-idle run after the last restart x optional idle tail after the end. non-trivial = distinct case in which a checkpoint write was executed before the first data command of a run that started from a stored position (ticker/keep-alive/shutdown flush ahead of the first item). "
+     "x optional pure-idle run after the last restart x optional idle tail after the end. One case in three is shaped like an idle master's stream: keep-alive PINGs inserted in front of SELECT / MULTI and after plain commands, each with an idle gap of 0.5-2 batch / checkpoint ticker periods before and / or after it, delivered command by command (C01, C02 and C09 use the same shape for one case in five). non-trivial = distinct case in which a checkpoint write was executed before the first data command of a run that started from a stored position (ticker/keep-alive/shutdown flush ahead of the first item). "
      "Oracle over the ordered list of values written to <runid>_offset in all runs (from the target log): every value is the run's start offset or a command-end offset of the reference stream; the list never decreases; no value < 0 while a value >= 0 is stored; "
      "a restart never reads 'none' (or another value than the last one stored) once a position >= 0 has been stored.",
      [{"pkg": "c07", "test": "TestC07",
